@@ -413,7 +413,8 @@ Section SolverB.
   Proof.
     intros ms s vs (WF & Hfit & Hmem & Hvar) Hg H v Hv.
     destruct (multichoices ms) as [|c0 mcs] eqn:Emc.
-    - rewrite all_variants_frozen in H by exact Emc. discriminate.
+    - rewrite all_variants_frozen in H by exact Emc. inversion H; subst vs.
+      destruct Hv as [<-|[]]. exact Hg.
     - destruct (all_variants_spec ms s WF (Hmem s Hg)) as (vs' & Hav & _ & _ & Hiff & _).
       + intros c' Hc'. destruct Hg as [Hn _]. rewrite Hn. apply Hfit, Hc'.
       + rewrite Emc; discriminate.
@@ -721,7 +722,7 @@ Section SolverB.
     - destruct (scores_sum spec ev boost (lp_objectives spec p) st1) as [sc st2] eqn:E2.
       pose proof (scores_sum_good _ _ _ _ E2 Hg1) as Hg2.
       destruct (all_variants (lp_space spec p) (cur spec st2)) as [vs|] eqn:Ev.
-      + destruct (opt_exhaustive_loop spec ev enforced boost p (sum_best spec best boost (lp_objectives spec p) false)
+      + destruct (opt_exhaustive_loop spec ev enforced boost p (sum_best spec best boost (lp_objectives spec p) true)
                     vs sc (cur spec st2) st2) as [[sc' bseq] st3] eqn:El.
         inversion H; subst.
         destruct (opt_exhaustive_loop_good _ _ _ _ _ _ _ _ _
